@@ -293,6 +293,20 @@ def parse_primary(p, nostruct):
 
 def parse_if(p):
     p.expect("if")
+    if p.at("let"):
+        # `if let Some(x) = e { .. } else { .. }`
+        p.next()
+        ctor = p.ident()
+        if ctor != "Some":
+            raise Unsupported(f"if let pattern {ctor}")
+        p.expect("(")
+        var = p.ident()
+        p.expect(")")
+        p.expect("=")
+        scrut = parse_expr(p, nostruct=True)
+        th = parse_block(p)
+        el = parse_block(p) if p.eat("else") else None
+        return ("iflet", var, scrut, th, el)
     c = parse_expr(p, nostruct=True)
     th = parse_block(p)
     el = None
